@@ -370,7 +370,9 @@ REQUIRED_THEOREMS = [
 ]
 RULE = ("all lengths 0..40 x {4 operators x every Vector/Matrix operator form (owned/borrowed, vector, scalar-left, "
         "scalar-right, assign), negation, 29 unary maps, powi (exponents 0,1,2,3,-1,-2,5,..), powf, 7 reductions}, "
-        "then random lengths up to 1e4; non-trivial = distinct (request kind, operator/function, operand kinds, "
+        "then random lengths up to 1e4; threshold-band strata: logsumexp/logmeanexp (free + Vector method) with maxima in "
+        "[690, 709.78], in the underflow band [-745.2, -690], straddling +-709, lengths 1..300; map arguments at the "
+        "overflow/underflow/tiny-argument thresholds of exp, exp2, exp_m1, ln_1p, sinh, cosh, ...; non-trivial = distinct (request kind, operator/function, operand kinds, "
         "ownership, length) class with a reply")
 EXHAUSTIVE = {"quick": False, "thorough": False}
 NOT_PROVED = [
